@@ -157,6 +157,30 @@ pub(crate) fn proof_perturbations(bytes: &[u8]) -> Vec<(String, Vec<u8>)> {
         b.extend_from_slice(&g);
         b.extend_from_slice(&bytes[body + k * 2 * P..]);
         out.push(("lr_long".into(), b));
+        // ... the same with the point at infinity, and with two more pairs
+        let z = to_bytes(&C::zero_point());
+        let mut b = bytes[..cnt_off].to_vec();
+        b.extend_from_slice(&((k + 1) as u32).to_be_bytes());
+        b.extend_from_slice(&bytes[body..body + k * 2 * P]);
+        b.extend_from_slice(&z);
+        b.extend_from_slice(&z);
+        b.extend_from_slice(&bytes[body + k * 2 * P..]);
+        out.push(("lr_long_zero".into(), b));
+        let mut b = bytes[..cnt_off].to_vec();
+        b.extend_from_slice(&((k + 2) as u32).to_be_bytes());
+        b.extend_from_slice(&bytes[body..body + k * 2 * P]);
+        if k > 0 {
+            // repeat the last honest pair twice
+            let last = &bytes[body + (k - 1) * 2 * P..body + k * 2 * P];
+            b.extend_from_slice(last);
+            b.extend_from_slice(last);
+        } else {
+            for _ in 0..4 {
+                b.extend_from_slice(&g);
+            }
+        }
+        b.extend_from_slice(&bytes[body + k * 2 * P..]);
+        out.push(("lr_long2".into(), b));
     }
     out
 }
@@ -592,6 +616,20 @@ fn leq_case(ctx: &ChildCtx, sh: &mut Shard, idx: u64, r: &mut CRng) {
                 j.must_reject("leq", "proof_component", res, || mk(&name, &b2));
             }
         }
+        // the SAME commitment object as both arguments: a true statement (a <= a) with its honest proof ...
+        let pr_same = catch(|| with_tr!(tk, &dom, |t| range_proof::prove_less_than_or_equal(&mut t, r, n, a, a, &gens, &key, &ra, &ra)));
+        if let Ok(Some(ps)) = pr_same {
+            let psb = to_bytes(&ps);
+            let res = verify(&ca, &ca, &ps, n, &dom, &gens);
+            j.must_accept("leq_same_commitment", res, || (format!("{}:same:{:016x}", base_sig, fnv(&psb)), desc(hex(&psb))));
+            // ... but a commitment to a value outside [0, 2^n) given as both arguments must still be checked
+            let out_scalar = if n == 64 { scalar_of(1, r.0.below(1000)) } else { scalar_of(0, (1u64 << n) + r.0.below(1u64 << n).min(1000)) };
+            let c_out = commit(&key, &out_scalar, &ra);
+            let res = verify(&c_out, &c_out, &ps, n, &dom, &gens);
+            j.must_reject("leq", "same_commitment_out_of_range", res, || mk("same-commitment-out-of-range(proof for a<=a)", &psb));
+            let res = verify(&c_out, &c_out, &proof, n, &dom, &gens);
+            j.must_reject("leq", "same_commitment_out_of_range", res, || mk("same-commitment-out-of-range(proof for a<=b)", &pb));
+        }
         j.sh.nontrivial(fnv(format!("leq:{}:{:016x}", base_sig, fnv(&pb)).as_bytes()));
     } else {
         j.sh.hit("boundary.leq.false");
@@ -696,6 +734,11 @@ fn in_range_case(ctx: &ChildCtx, sh: &mut Shard, idx: u64, r: &mut CRng) {
             let res = verify(&sa, &C::scalar_from_u64(b + 1), &com, &proof, &dom, ver);
             j.must_reject("in_range", "b+1", res, || mk("b+1", &pb));
         }
+        // equal bounds (empty range) around the value, with a proof made for another statement
+        let res = verify(&sv, &sv, &com, &proof, &dom, ver);
+        j.must_reject("in_range", "equal_bounds", res, || mk("a=b=v", &pb));
+        let res = verify(&sa, &sa, &com, &proof, &dom, ver);
+        j.must_reject("in_range", "equal_bounds", res, || mk("b=a", &pb));
         let c2 = Commitment(com.0.plus_point(&key.g));
         let res = verify(&sa, &sb, &c2, &proof, &dom, ver);
         j.must_reject("in_range", "commitment", res, || mk("commitment", &pb));
@@ -757,9 +800,10 @@ fn set_case(ctx: &ChildCtx, sh: &mut Shard, idx: u64, r: &mut CRng, kind: SetKin
         }
     }
     // all elements are even; odd neighbours are therefore absent
-    let plan = (idx / 8 + ctx.shard as u64 / 3) % 5;
+    let plan = (idx / 8 + ctx.shard as u64 / 3) % 6;
     let (v, label, truth_member): ((u64, u64), &str, bool) = match plan {
         0 => (elems[0], "first", true),
+        5 => (elems[r.0.below(size as u64) as usize], "twice", true),
         1 => (elems[size - 1], "last", true),
         2 => (elems[r.0.below(size as u64) as usize], "some", true),
         3 => {
@@ -778,8 +822,24 @@ fn set_case(ctx: &ChildCtx, sh: &mut Shard, idx: u64, r: &mut CRng, kind: SetKin
             elems2[at] = d;
         }
     }
+    if label == "twice" && size >= 2 {
+        // the value occurs twice in the (multi)set
+        let first = elems2.iter().position(|e| *e == v).unwrap();
+        let other = (first + 1 + r.0.below(size as u64 - 1) as usize) % size;
+        elems2[other] = v;
+    }
     let truth_member = truth_member && elems2.contains(&v);
     let truth = if kind == SetKind::Member { truth_member } else { !elems2.contains(&v) };
+    if kind == SetKind::Member && truth {
+        // the value occurs more than once in the padded vector the proof works on
+        let occurrences = elems2.iter().filter(|e| **e == v).count();
+        if occurrences >= 2 {
+            sh.hit(&format!("set_member.member_twice.{}", vname(ver)));
+        }
+        if !size.is_power_of_two() && elems2[size - 1] == v {
+            sh.hit(&format!("set_member.last_repeated_by_padding.{}", vname(ver)));
+        }
+    }
     let set: Vec<Fr> = elems2.iter().map(|(h, l)| scalar_of(*h, *l)).collect();
     let sv = scalar_of(v.0, v.1);
     let k = size.next_power_of_two();
